@@ -162,6 +162,22 @@ def make_signals(r):
     nchan = r.get("nchan", 0)
     shape = (nsrc, n) if not nchan else (nsrc, n, nchan)
     ref = rs.randn(*shape)
+    pcm = r.get("pcm")
+    ref_out = None
+    if pcm:
+        # the references as integer PCM samples (what an audio reader hands over): the estimates are built from the same
+        # signals at unit scale, the references handed to the library are their quantised integer versions
+        if pcm == "uint8":
+            ref_out = np.clip(np.round(ref * 40.0) + 128.0, 0, 255)
+            ref = (ref_out - 128.0) / 40.0
+        elif pcm == "uint16":
+            ref_out = np.clip(np.round(ref * 8000.0) + 32768.0, 0, 65535)
+            ref = (ref_out - 32768.0) / 8000.0
+        else:
+            ref_out = np.clip(np.round(ref * 8000.0), -32768, 32767)
+            if pcm == "int16":
+                ref_out.reshape(-1)[rs.randint(ref_out.size)] = -32768.0      # a clipped sample
+            ref = ref_out / 8000.0
     kind = r.get("kind", "mix")
     if kind == "noise":
         est = rs.randn(*shape)
@@ -189,6 +205,10 @@ def make_signals(r):
         (ref if which == "ref" else est)[src, a:b] *= g        # a passage far quieter (or louder) than the rest
     for (which, src, a, b) in r.get("silent", []):
         (ref if which == "ref" else est)[src, a:b] = 0.0
+    if pcm and not r.get("gains") and not r.get("silent"):
+        ref = ref_out.astype(pcm)
+        if kind == "perfect":
+            est = ref[list(tau)].copy() if tau is not None else ref.copy()
     return ref, est
 
 
@@ -1570,6 +1590,13 @@ def _gen_nonframewise(fnname):
                 if r["cp"]:
                     rng.shuffle(tau)
                 r["tau"] = tau
+            if rng.random() < 0.2:
+                r["pcm"] = rng.choice(["int16", "uint8", "int32", "uint16"])
+                if r["check"].startswith("scale"):
+                    r["scale_which"], r["inplace"] = "est", False     # (an integer array cannot be rescaled in place)
+                    # moderate factors only: PCM references are 4 decades above unit scale already, and the extreme factors
+                    # exist to put ~9 decades between the sources of one linear system (see check_scale)
+                    r["scale_factor"] = rng.choice([-3.7, 0.01, 2.5, 1000.0, -1.0, 0.3])
             yield r
         if shard == 0:
             for sh in ([0], [0, 0], [2, 0], [0, 7]) + (([2, 0, 2], [0, 5, 1]) if images else ()):
